@@ -32,14 +32,14 @@ func finish(spec *Spec, tier string, seed int, obs []*Obligation, results map[st
 				continue
 			}
 			n++
-			cases = append(cases, &ReplayCase{ID: fmt.Sprintf("c%d", n), Prop: spec.Property, Ob: o.Name, Pkg: o.Pkg, Entry: o.Entry, Kind: v.Kind, Msg: v.Msg, Site: v.Site, Vals: v.Nondets, Notes: v.Notes})
+			cases = append(cases, &ReplayCase{ID: fmt.Sprintf("c%d", n), Prop: spec.Property, Ob: o.Name, Pkg: o.Pkg, Entry: o.Entry, Kind: v.Kind, Msg: v.Msg, Site: v.Site, Vals: v.Nondets, Notes: v.Notes, Quick: tier != "thorough", Seed: uint64(seed)})
 		}
 		for i, w := range r.rep.Witnesses {
 			if i >= 2 {
 				break
 			}
 			n++
-			cases = append(cases, &ReplayCase{ID: fmt.Sprintf("c%d", n), Prop: spec.Property, Ob: o.Name, Pkg: o.Pkg, Entry: o.Entry, Kind: "witness", Msg: "completed path", Vals: w})
+			cases = append(cases, &ReplayCase{ID: fmt.Sprintf("c%d", n), Prop: spec.Property, Ob: o.Name, Pkg: o.Pkg, Entry: o.Entry, Kind: "witness", Msg: "completed path", Vals: w, Quick: tier != "thorough", Seed: uint64(seed)})
 		}
 	}
 	if !noReplay && len(cases) > 0 {
@@ -119,6 +119,10 @@ func finish(spec *Spec, tier string, seed int, obs []*Obligation, results map[st
 				inconclusive = true
 			}
 			continue
+		}
+		if r.rep.Proven == 0 && r.rep.Trivial == 0 && len(r.rep.Violations) == 0 {
+			notes = append(notes, "obligation "+o.Name+" decided no assertion at all")
+			inconclusive = true
 		}
 		if len(r.rep.Reached) == 0 {
 			notes = append(notes, "obligation "+o.Name+" reached no verifReach point (vacuous)")
